@@ -8,7 +8,7 @@
    in any order of the enabled internal rules. *)
 From Coq Require Import List ZArith Bool.
 Import ListNotations.
-From Goat Require Import Model.Client Model.Server Proofs.ServerProofs Proofs.ServerInv Proofs.ServerLive Proofs.ServerTrace.
+From Goat Require Import Model.Client Model.Server Proofs.ServerProofs Proofs.ServerInv Proofs.ServerLive Proofs.ServerTrace Proofs.ServerRoute Proofs.ServerDispatch.
 Open Scope Z_scope.
 
 (* no reachable state is crashed: the places where the code dereferences the
@@ -45,6 +45,25 @@ Theorem C12_dispatch_sound : forall ls s, lrun init ls = Some s ->
   filter is_invoke (log s) = invs_from 0 (sigs s) /\ (forall p, In p (sigs s) -> req_ok p).
 Proof. exact (srv_dispatch nworkers). Qed.
 Print Assumptions C12_dispatch_sound.
+
+(* dispatch, complete direction for unary requests, over histories. [ureads l]: the envelopes read that name a
+   registered unary method of this server (header, method, destination pass the filters), in order; [jobs l]: those
+   handed to a worker; [ureqs s]: the envelopes that started the unary handlers, in start order.
+   Always: a unary handler was started for exactly the requests handed to a worker whose metadata and body decode,
+   in order, once each. *)
+Theorem C12_dispatch_unary : forall ls s, lrun init ls = Some s ->
+  ureqs s = filter unary_ok (jobs (log s)).
+Proof. exact (srv_dispatch_unary nworkers). Qed.
+Print Assumptions C12_dispatch_unary.
+
+(* (Q) every qualifying envelope is eventually invoked: in every reachable quiescent state in which the read loop
+   still serves and some worker is idle, every unary request read so far has been handed to a worker, and a handler
+   has been started for exactly those whose metadata and body decode - in order, once each, none left waiting *)
+Theorem C12_dispatch_complete : forall ls s, lrun init ls = Some s ->
+  quiescent s = true -> rd_exited s = false -> (exists w, nth_error (wk s) w = Some WkIdle) ->
+  ureads (log s) = jobs (log s) /\ ureqs s = filter unary_ok (ureads (log s)).
+Proof. exact (srv_dispatch_complete nworkers). Qed.
+Print Assumptions C12_dispatch_complete.
 
 (* ... and what the read loop does with an envelope naming a stream method that passed the filters, in full:
    a handler is started iff the id is not open and the envelope is a pure open; it is forwarded to the open
